@@ -48,9 +48,11 @@ QueryJudge ==
   /\ \A i \in 1..Len(Line.g) : Line.g[i] \in Keys
   /\ AnswerOK(Line.m, Line.cond, Line.g, Line.slot, Line.res, gv, cnt)
 TQuery == Ev("Query") /\ UNCHANGED vars /\ Holds(QueryJudge)
+\* ---- a listing of the tag value dictionary of one key: a function value -> id over exactly the created values
+TDict == Ev("Dict") /\ UNCHANGED vars /\ Holds(DictOK(Line.k, Line.entries))
 
 TraceNext == TReset \/ TWrite \/ TPrepMeta \/ TFlushMeta \/ TCompactMeta \/ TPrepIdx \/ TFlushIdx \/ TCompactIdx
-             \/ TReopen \/ TRefresh \/ TQuery
+             \/ TReopen \/ TRefresh \/ TQuery \/ TDict
 TraceSpec == TraceInit /\ [][TraceNext]_tvars
 
 HighWater == TLCSet(1, IF l > TLCGet(1) THEN l ELSE TLCGet(1))
